@@ -2,6 +2,7 @@ package main
 
 import (
 	"bufio"
+	"context"
 	"crypto/ecdsa"
 	"crypto/elliptic"
 	crand "crypto/rand"
@@ -505,6 +506,10 @@ func c06Serve(in *c06In, aes bool) Result {
 	if in.TLS {
 		req.TLS = &tls.ConnectionState{ServerName: in.SNI, HandshakeComplete: true}
 	}
+	if in.Conn != nil {
+		// the connection the handshake was made on: net/http puts its local address here
+		req = req.WithContext(context.WithValue(req.Context(), http.LocalAddrContextKey, net.Addr(c06Addr(*in.Conn))))
+	}
 	rec := httptest.NewRecorder()
 	srv.ServeHTTP(rec, req)
 	obsT, what := "SNoSite", "no site"
@@ -530,16 +535,20 @@ func c06ServeSig(in *c06In, hosts []string) string {
 	}
 	hostname := c06HostOnly(rhost)
 	policy := func(s c06Site) string {
-		p := fmt.Sprint(s.Auth, s.Certs)
+		p, pr := fmt.Sprint(s.Auth, s.Certs), ""
 		for _, o := range s.Opts {
 			if o.K == "clients" {
 				p = fmt.Sprint(o.A)
 			}
+			if o.K == "protocols" {
+				pr = fmt.Sprint(o.A)
+			}
 		}
-		return p
+		return p + "|" + pr
 	}
-	// two catch-all sites, at least one spelled 0.0.0.0 or ::, with different client policies (the
-	// compatibility assert looks these up under the unmapped name and never finds the other)
+	// two catch-all sites, at least one spelled 0.0.0.0 or ::, with different client policies or
+	// protocol ranges (F-C06-3, repaired: the compatibility assert looked these up under the
+	// unmapped name and never found the other; the class stays so that a regression is named)
 	for i := range in.Sites {
 		for j := range in.Sites {
 			ki := hosts[i] == "" || hosts[i] == "0.0.0.0" || hosts[i] == "::"
@@ -556,11 +565,15 @@ func c06ServeSig(in *c06In, hosts []string) string {
 			return "serve:all-wildcard-site"
 		}
 	}
-	// the router normalises the host once more than the strict SNI = Host test does
-	// (a second port strip, brackets of a port-less literal)
+	// the router normalises the host once more than the port strip of serveHTTP does (a second
+	// port strip, brackets of a port-less literal); the strict SNI = Host test has to look at the
+	// routed name (F-C06-2, repaired: the class stays so that a regression is named)
 	if c06RouterHost(hostname) != strings.ToLower(hostname) {
 		return "serve:host-renormalized-by-router"
 	}
+	// no SNI, no Host: the handshake is governed by default-sni / the local-address site / the
+	// catch-all, the request is routed to the catch-all site (F-C06-1, repaired: the class stays
+	// so that a regression is named)
 	if in.TLS && strings.TrimSpace(in.SNI) == "" && hostname == "" {
 		return "serve:empty-sni-empty-host"
 	}
@@ -887,6 +900,65 @@ func c06GenServe(r *Rand) *c06In {
 	return in
 }
 
+// c06GenSniLess aims at the handshake without SNI: a catch-all site (one of its spellings) that
+// usually demands client certificates, next to sites named by local addresses and host names;
+// no SNI (rarely white space), no or a crossed Host, default server name set now and then.
+func c06GenSniLess(r *Rand) *c06In {
+	in := &c06In{Kind: "serve", TLS: true}
+	auth := func(s *c06Site, pct int) {
+		if r.Chance(pct) {
+			switch r.Intn(3) {
+			case 0:
+				s.Auth = 1
+			case 1:
+				s.Auth = 2
+			case 2:
+				s.Auth, s.Certs = 4, []string{"ca0"}
+			}
+			s.Insecure = r.Chance(6)
+		}
+	}
+	ca := c06Site{Addr: r.Pick([]string{":443", ":443", "0.0.0.0:443", "[::]:443"})}
+	auth(&ca, 85)
+	in.Sites = append(in.Sites, ca)
+	for k := r.Intn(3); k > 0; k-- {
+		s := c06Site{Addr: r.Pick([]string{"127.0.0.1:443", "10.0.0.1:443", "[::1]:443", "a.com:443", "b.com", "*.a.com:443", "localhost"})}
+		auth(&s, 30)
+		in.Sites = append(in.Sites, s)
+	}
+	if r.Chance(15) {
+		// a second catch-all spelling with the same policy
+		s := ca
+		s.Addr = r.Pick([]string{":443", "0.0.0.0:443", "[::]:443"})
+		in.Sites = append(in.Sites, s)
+	}
+	p := r.Perm(len(in.Sites))
+	sites := make([]c06Site, len(in.Sites))
+	for i, j := range p {
+		sites[i] = in.Sites[j]
+	}
+	in.Sites = sites
+	if r.Chance(5) {
+		in.SNI = r.Pick([]string{" ", "\t"})
+	}
+	host := ""
+	switch k := r.Intn(100); {
+	case k < 12:
+		host = r.Pick([]string{"127.0.0.1", "10.0.0.1:443", "a.com", "[::1]:443", "z.org"})
+	case k < 16:
+		host = ":443"
+	}
+	in.Host = &host
+	if r.Chance(25) {
+		in.Dflt = c06Decorate(r, r.Pick([]string{"a.com", "z.org", "x.a.com", "127.0.0.1", " ", "b.com"}), true)
+	}
+	if r.Chance(85) {
+		c := r.Pick([]string{"127.0.0.1:443", "10.0.0.1:8443", "[::1]:443", "127.0.0.1:443", "10.9.9.9:443", "127.0.0.1", "noport"})
+		in.Conn = &c
+	}
+	return in
+}
+
 func c06GenLookup(r *Rand) *c06In {
 	in := &c06In{Kind: "lookup"}
 	n := r.Range(1, 5)
@@ -1076,9 +1148,9 @@ func c06GenHandshake(r *Rand) *c06In {
 func c06Gen(r *Rand, tier string) []interface{} {
 	c06Setup()
 	var out []interface{}
-	nSplit, nLookup, nDefaults, nSetup, nServe, nHand := 250, 1600, 200, 350, 1800, 120
+	nSplit, nLookup, nDefaults, nSetup, nServe, nSniLess, nHand := 250, 1600, 200, 350, 1800, 200, 120
 	if tier == "thorough" {
-		nSplit, nLookup, nDefaults, nSetup, nServe, nHand = 2500, 16000, 2000, 3500, 18000, 1200
+		nSplit, nLookup, nDefaults, nSetup, nServe, nSniLess, nHand = 2500, 16000, 2000, 3500, 18000, 2000, 1200
 	}
 	// SplitHostPort: structured strings around brackets and colons
 	parts := []string{"a", "b.com", "[", "]", ":", "80", "::1", "", "x", "]:", "[a", ":1"}
@@ -1121,6 +1193,9 @@ func c06Gen(r *Rand, tier string) []interface{} {
 	for i := 0; i < nServe; i++ {
 		out = append(out, c06GenServe(r))
 	}
+	for i := 0; i < nSniLess; i++ {
+		out = append(out, c06GenSniLess(r))
+	}
 	for i := 0; i < nHand; i++ {
 		out = append(out, c06GenHandshake(r))
 	}
@@ -1132,7 +1207,7 @@ func init() {
 		ID: "C06", Imports: "V.Lib V.C06_Model", Judge: "judge",
 		Rule: "cases = net.SplitHostPort strings; caskettls.MakeTLSConfig(configs).GetConfigForClient(hello) on config sets x SNI x default-sni x local address " +
 			"(governing config by pointer identity, its tls.Config fields); SetDefaultTLSParams; the real tls directive setup; httpserver.NewServer + " +
-			"ServeHTTP with crossed SNI/Host; casket.Start + real loopback TLS handshakes (negotiated version, certificate request, response). " +
+			"ServeHTTP with crossed SNI/Host (local address of the connection in the request context), a stream without SNI against catch-all, local-address and named sites x default-sni; casket.Start + real loopback TLS handshakes (negotiated version, certificate request, response). " +
 			"non-trivial = lookup with >=2 configs, split string containing ':[ ]', setup with sub-directives, serve on a TLS connection with a site " +
 			"that demands client certificates, every handshake; distinct = distinct Coq case term",
 		Gen: c06Gen,
